@@ -384,13 +384,61 @@ Qed.
 
 (* ---------- mapM ---------- *)
 Lemma sim_mapM {A B} (RA : lmap -> A -> A -> Prop) (RB : lmap -> B -> B -> Prop)
-      `{Mono A RA} `{Mono B RB} (g1 g2 : A -> M B) :
-  (forall f a1 a2, RA f a1 a2 -> sim f RB (g1 a1) (g2 a2)) ->
-  forall l1 l2 f, listrel RA f l1 l2 -> sim f (listrel RB) (mapM g1 l1) (mapM g2 l2).
+      `{Mono A RA} `{Mono B RB} (g1 g2 : A -> M B) f0 :
+  (forall f, ext f0 f -> forall a1 a2, RA f a1 a2 -> sim f RB (g1 a1) (g2 a2)) ->
+  forall l1 l2 f, ext f0 f -> listrel RA f l1 l2 -> sim f (listrel RB) (mapM g1 l1) (mapM g2 l2).
 Proof.
-  intros Hg l1. induction l1 as [|a1 t1 IH]; intros l2 f L; inversion L as [|x a2 y t2 Ha Ht]; subst; simpl.
+  intros Hg l1. induction l1 as [|a1 t1 IH]; intros l2 f E0 L; inversion L as [|x a2 y t2 Ha Ht]; subst; simpl.
   - apply sim_ret. constructor.
-  - eapply sim_bind; [apply Hg; exact Ha|]. intros f' b1 b2 E Hb.
-    eapply sim_bind; [apply IH; eapply mono; eauto|]. intros f'' r1 r2 E' Hr.
+  - eapply sim_bind; [apply Hg; [exact E0 | exact Ha]|]. intros f' b1 b2 E Hb.
+    eapply sim_bind; [apply IH; [eapply ext_trans; eauto | eapply mono; eauto]|]. intros f'' r1 r2 E' Hr.
     apply sim_ret. constructor; auto. eapply mono; eauto.
 Qed.
+
+Lemma listrel_eq {A} f (l1 l2 : list A) : listrel (eqrel A) f l1 l2 -> l1 = l2.
+Proof. intro F. induction F; auto. unfold eqrel in *. congruence. Qed.
+Lemma listrel_eq_refl {A} f (l : list A) : listrel (eqrel A) f l l.
+Proof. induction l; constructor; auto. reflexivity. Qed.
+Lemma listrel_length {A} (R : lmap -> A -> A -> Prop) f l1 l2 : listrel R f l1 l2 -> List.length l1 = List.length l2.
+Proof. intro F. induction F; simpl; auto. Qed.
+Lemma listrel_app {A} (R : lmap -> A -> A -> Prop) f a1 a2 b1 b2 :
+  listrel R f a1 a2 -> listrel R f b1 b2 -> listrel R f (a1 ++ b1) (a2 ++ b2).
+Proof. intros F G. induction F; simpl; auto. constructor; auto. Qed.
+Lemma listrel_nth {A} (R : lmap -> A -> A -> Prop) f l1 l2 k :
+  listrel R f l1 l2 -> optrel R f (nth_error l1 k) (nth_error l2 k).
+Proof. intro F. revert k. induction F; intros [|k]; simpl; auto. Qed.
+Lemma listrel_firstn {A} (R : lmap -> A -> A -> Prop) f l1 l2 k :
+  listrel R f l1 l2 -> listrel R f (firstn k l1) (firstn k l2).
+Proof.
+  intro F. revert k. induction F; intros [|k]; simpl; try constructor; auto. apply IHF.
+Qed.
+Lemma listrel_skipn {A} (R : lmap -> A -> A -> Prop) f l1 l2 k :
+  listrel R f l1 l2 -> listrel R f (skipn k l1) (skipn k l2).
+Proof.
+  intro F. revert k. induction F; intros [|k]; simpl; try (constructor; auto; fail); auto.
+Qed.
+
+Lemma framerel_plookup f k p1 p2 : framerel f p1 p2 -> optrel lrel f (plookup k p1) (plookup k p2).
+Proof.
+  intro F. induction F as [|[k1 a1] [k2 a2] t1 t2 [K L] F IH]; simpl; auto.
+  simpl in K, L. unfold eqrel in K. subst k2. destruct (str_eqb k1 k); auto.
+Qed.
+Lemma framerel_keys f p1 p2 : framerel f p1 p2 -> map fst p1 = map fst p2.
+Proof. intro F. induction F as [|[k1 a1] [k2 a2] t1 t2 [K L] F IH]; simpl; auto. simpl in K. unfold eqrel in K. congruence. Qed.
+
+(* ---------- tactics ---------- *)
+(* carry every relation hypothesis at f over to the extension f' *)
+Ltac up E :=
+  repeat match goal with
+         | H : Forall2 (lrel ?f) ?a ?b |- _ => change (lrels f a b) in H
+         | H : Forall2 (?R ?f) ?a ?b |- _ => change (listrel R f a b) in H
+         | H : ?R ?f ?a ?b |- _ =>
+             match type of E with ext f ?f' => apply (mono f f' a b E) in H end
+         end.
+
+Ltac sbind tac :=
+  eapply sim_bind;
+  [ tac
+  | let f' := fresh "f" in let a1 := fresh "a" in let a2 := fresh "b" in
+    let E := fresh "E" in let H := fresh "R" in
+    intros f' a1 a2 E H; up E ].
